@@ -4,16 +4,16 @@
 EXTENDS Session, TLC, Json, IOUtils
 Traces == ndJsonDeserialize(IOEnv.TRACE_FILE)
 N == Len(Traces)
-VARIABLES tid, l, cur, exact, bad
-Init == tid \in 1..N /\ l = 1 /\ cur = Traces[tid].start /\ exact = TRUE /\ bad = {}
+VARIABLES tid, l, cur, ref, bad
+Init == tid \in 1..N /\ l = 1 /\ cur = Traces[tid].start /\ ref = Traces[tid].start /\ bad = {}
 Next == /\ l <= Len(Traces[tid].steps)
-        /\ LET s == Traces[tid].steps[l]  v == WalkStepClauses(Traces[tid].start, cur, exact, s) IN
+        /\ LET s == Traces[tid].steps[l]  v == WalkStepClauses(Traces[tid].start, ref, cur, s) IN
              /\ bad' = bad \cup {<<l, c>> : c \in v}
              /\ cur' = NextCur(cur, s)
-             /\ exact' = NextExact(cur, exact, s)
+             /\ ref' = NextRef(ref, cur, s)
         /\ l' = l + 1 /\ UNCHANGED tid
 Finished == l > Len(Traces[tid].steps)
 Report == (Finished /\ bad # {}) => PrintT(<<"FAIL", Traces[tid].eid, {x[2] : x \in bad}, {x[1] : x \in bad}>>)
-Inexact == (Finished /\ ~exact) => PrintT(<<"NOTE", Traces[tid].eid, "inexact">>)
+Inexact == (Finished /\ ref # Traces[tid].start) => PrintT(<<"NOTE", Traces[tid].eid, "rebased">>)
 Done == TLCGet("generated") >= 0 /\ PrintT(<<"DONE", N>>)
 =============================================================================
